@@ -310,6 +310,11 @@ theorem find_copied {op : Op} {loc : Located} (h : specLocate op = some loc) :
   unfold specLocate at h
   by_cases hd : op.srcIsDir = true
   · simp only [hd, if_true] at h
+    have hl : op.viaLink = false := by
+      cases hv : op.viaLink
+      · rfl
+      · simp [hv] at h
+    simp only [hl, Bool.false_eq_true, if_false] at h
     obtain ⟨f, c, hf, hm⟩ := specLocateDir_some h
     obtain ⟨hexe, hname, hch⟩ := mkLocated_some hm
     have hfn : f.name = binName loc.name := parseName_some hname
@@ -377,7 +382,8 @@ def specStep (R : List PluginObs) (op : Op) : StepObs :=
       match ruleR (existingR R nw.name) op.overwrite nw with
       | .error e => mkStep e none none R
       | .ok ex =>
-        mkStep .ok ex (some nw.version) (putBy PluginObs.name (newObs nw) (delBy PluginObs.name nw.name R))
+        if insideOwn op nw then mkStep .other none none R
+        else mkStep .ok ex (some nw.version) (putBy PluginObs.name (newObs nw) (delBy PluginObs.name nw.name R))
   | .uninstall =>
     if !validName op.name then mkStep .other none none R
     else if (lookupR R op.name).isSome then mkStep .ok none none (delBy PluginObs.name op.name R)
@@ -475,7 +481,10 @@ theorem step_eq_spec (st : State) (op : Op) :
       rw [versionRule_eq st op.overwrite (newOf_valid hn')]
       cases hr : ruleR (existingR (observe st) nw.name) op.overwrite nw with
       | error e => simp [mkStep]
-      | ok ex => simp [mkStep, observe_replace hn]
+      | ok ex =>
+        by_cases hio : insideOwn op nw = true
+        · simp [mkStep, hio]
+        · simp [mkStep, observe_replace hn, hio]
   | uninstall =>
     simp only [uninstall]
     by_cases hv : validName op.name = true
